@@ -221,7 +221,7 @@ def tracker_history(rng, kind, steps):
 
 
 def generate(rng, tier):
-    n, steps = {"quick": (24, 14), "thorough": (400, 30), "search": (120, 20)}.get(tier, (24, 14))
+    n, steps = {"quick": (48, 14), "thorough": (400, 30), "search": (120, 20)}.get(tier, (24, 14))
     cases = []
     for i in range(n):
         k = i % 8
